@@ -162,6 +162,29 @@ def run(chk: Check) -> None:
                     n_rows += 1
                     if stored == skipped_by_rule:
                         dev.append(({k: v[k] for k in v}, 'stored' if stored else 'skipped'))
+    # "leaves other ports of the destination in place": a destination namespace that already exists under the name of an absorbed source namespace must be
+    # merged into, not replaced -- the store of the fresh copy is taken only where the name is known not to be in the destination yet
+    if ok:
+        ns_stores = [m for m in stores if any(a_[0] == 'isinst' and 'PortNamespace' in a_[2] for a_ in ffa.at(m))]
+        merged = bool(ns_stores) and all(('F', f'{nm} in self') in ffa.at(m) for m in ns_stores)
+        chk.ob('PROV-copies-only', ab, merged, 'a source namespace is copied over a name only where the destination has nothing under that name' + ('' if merged else
+               ': the copy REPLACES an existing destination namespace of the same name, the ports the destination already had in it are lost'),
+               node=ns_stores[0].ast if ns_stores else None, kind='existing-namespace-merged')
+    # an include rule set that is GIVEN but EMPTY selects nothing (it is not "no include rules"): under include == () / [] every port is skipped
+    dev_empty = []
+    if ok:
+        kn, _ = _leaf(ffa, ast.parse('include is None', mode='eval').body)
+        for ns_ in (False, True):
+            val = {K['ex']: False, K['inex']: False, K['inc']: False, K['ininc']: False, K['any']: False, K['ns']: ns_, kn: False}
+            for st in starts:
+                for path in _paths(ffa, dict(val), start=st, frozen=['exclude', 'include', nm, pt] + sorted({x.id for x in ast.walk(anyc[0]) if isinstance(x, ast.Name)})):
+                    if path[-1] is ffa.cfg.raise_exit and it not in path:
+                        continue
+                    cut = path[:path.index(it)] if it in path else path
+                    if any(m in stores for m in cut):
+                        dev_empty.append('namespace' if ns_ else 'port')
+    chk.ob('SEG-exact-matching', ab, ok and not dev_empty, 'an empty include rule set selects nothing' + ('' if not dev_empty else f': with include=() a {sorted(set(dev_empty))} is still copied -- the rules are '
+           'tested for truthiness, so "no port selected" is taken for "no include rules" and everything is exposed'), kind='empty-include-selects-nothing')
     chk.ob('SEG-exact-matching', ab, ok and not dev and n_rows >= 8, f'decision table ({n_rows} paths): a port is skipped exactly when it is excluded by name, or include rules exist and do not name it '
            '(for a namespace: no rule is that name or starts with that name plus the separator); otherwise it is stored' + (f'; deviations {dev[:2]}' if dev else ''), kind='leaf-decisions')
     subs = [c for c in calls_in_func(ab, 'strip_namespace')]
